@@ -12,9 +12,16 @@
    This includes forward search of small-period needles with a prefilter attached, where
    the prefilter throws the Two-Way memory away: Sub/CostTwoWaySmall.v shows by a
    Fine-Wilf argument that the windows which are then re-scanned are far apart.
-   Complete find_iter / rfind_iter traversals: see C13_iter_* (when present). *)
+   Complete find_iter / rfind_iter traversals (next until the first None), from hit-aware
+   bounds (a call that reports a match at i costs O(i + |x|), Sub/CostHit.v):
+     forward   steps <= (4907 + 4909) * (|h| + 2)        (C13_iter_complete)
+     reverse   steps <=  142 * (|h| + 2)        (C13_riter_complete)
+   and for ANY number k of calls the bound C13_iter_any (a call made after a None repeats
+   the search of the remaining suffix: FindIter is not fused, so each such call is charged
+   one more pass). *)
 From Memchr Require Import Spec SpecProofs Params Base.Cost Sub.Prefilter Sub.TwoWay Sub.TwoWayFwdProofs Sub.Searcher Sub.SearcherProofs
-  Sub.CostBlocks Sub.CostTwoWay Sub.CostTwoWayAll Sub.CostTwoWaySmall Sub.CostPrefilter Sub.CostSearcher.
+  Sub.CostBlocks Sub.CostTwoWay Sub.CostTwoWayAll Sub.CostTwoWaySmall Sub.CostPrefilter Sub.CostSearcher
+  Sub.FindIter Sub.FindIterProofs Sub.CostHit Sub.CostIter.
 
 Local Open Scope nat_scope.
 
@@ -85,6 +92,65 @@ Proof.
   destruct (rfinder_cost ar x h a Hx Hh) as (r & Hr & Hc). exact Hc.
 Qed.
 
+(* ---- complete iterator traversals ---- *)
+(* find_iter driven until it returns None: exactly the greedy sequence, then None, in linear work *)
+Theorem C13_iter_complete : forall cfg (rank : N -> N) ar x h a f,
+  bytes_ok x -> bytes_ok h -> fst (finder_new cfg rank ar x) = Ok f ->
+  exists outs, fst (fiter_run ar f a h (S (length (greedy_seq x h))) fiter_new) = Ok outs /\
+    map fst outs = map Some (greedy_seq x h) ++ [None] /\
+    steps (fiter_run ar f a h (S (length (greedy_seq x h))) fiter_new) <= (4907 + 4909) * (length h + 2).
+Proof.
+  intros cfg rank ar x h a f Hx Hh Hf.
+  destruct (find_iter_complete_cost cfg rank ar x h a f Hx Hh Hf) as (outs & Ho & Hm & _ & _ & Hc).
+  exists outs. split; [exact Ho|]. split; [exact Hm|]. exact Hc.
+Qed.
+
+Theorem C13_riter_complete : forall ar x h a f,
+  bytes_ok x -> bytes_ok h -> fst (rfinder_new x) = Ok f ->
+  exists outs, fst (riter_run ar f a h (S (length (rgreedy_seq x h))) (riter_new h)) = Ok outs /\
+    outs = map Some (rgreedy_seq x h) ++ [None] /\
+    steps (riter_run ar f a h (S (length (rgreedy_seq x h))) (riter_new h)) <= 142 * (length h + 2).
+Proof.
+  intros ar x h a f Hx Hh Hf.
+  destruct (rfind_iter_complete_cost ar x h a f Hx Hh Hf) as (outs & Ho & Hm & _ & _ & Hc).
+  exists outs. split; [exact Ho|]. split; [exact Hm|]. exact Hc.
+Qed.
+
+(* any number k of next calls, construction included: one pass over the haystack, plus one more pass for
+   every call made after the iterator has already returned None (it is not fused), plus O(1) per call *)
+Theorem C13_iter_any : forall cfg (rank : N -> N) ar x h a k,
+  bytes_ok x -> bytes_ok h ->
+  exists outs, fst (f <- finder_new cfg rank ar x;; fiter_run ar f a h k fiter_new) = Ok outs /\ length outs = k /\
+    steps (f <- finder_new cfg rank ar x;; fiter_run ar f a h k fiter_new)
+      <= 4907 * (length h + 1) * (1 + count_none (removelast (map fst outs))) + 4909 * k + 5 * length x + 8.
+Proof.
+  intros cfg rank ar x h a k Hx Hh.
+  destruct (find_iter_cost_top cfg rank ar x h a k Hx Hh) as (outs & Ho & Hl & Hc).
+  exists outs. split; [exact Ho|]. split; [exact Hl|]. exact Hc.
+Qed.
+
+Theorem C13_riter_any : forall ar x h a k,
+  bytes_ok x -> bytes_ok h ->
+  exists outs, fst (f <- rfinder_new x;; riter_run ar f a h k (riter_new h)) = Ok outs /\ length outs = k /\
+    steps (f <- rfinder_new x;; riter_run ar f a h k (riter_new h))
+      <= 70 * (length h + 1) * (1 + count_none (removelast outs)) + 72 * k + 5 * length x + 8.
+Proof.
+  intros ar x h a k Hx Hh.
+  destruct (rfind_iter_cost_top ar x h a k Hx Hh) as (outs & Ho & Hl & Hc).
+  exists outs. split; [exact Ho|]. split; [exact Hl|]. exact Hc.
+Qed.
+
+(* a search that reports a match at i has cost bounded by i + |x|, whatever follows in the haystack *)
+Theorem C13_hit_aware : forall ar x h a s st,
+  bytes_ok x -> bytes_ok h -> strat_for ar x s -> strat_small s ->
+  exists r, fst (searcher_find ar s st a h x) = Ok r /\
+    forall i, fst r = Some i -> steps (searcher_find ar s st a h x) <= 4906 * (i + length x + 1) + length x + 3.
+Proof.
+  intros ar x h a s st Hx Hh H1 H2.
+  destruct (searcher_find_hit ar x h a Hx Hh s st H1 H2) as (r & Hr & _ & Hc).
+  exists r. split; [exact Hr|]. exact Hc.
+Qed.
+
 (* the building blocks, each for any finder state and any argument needle *)
 Theorem C13_twoway : forall x h tw a st, fst (tw_new x) = Ok tw ->
   steps (tw_find tw None a h x st) <= 3 * length h + length x + 3.
@@ -127,6 +193,11 @@ Print Assumptions C13_searcher_reuse.
 Print Assumptions C13_twoway_small_prefilter.
 Print Assumptions C13_rfind.
 Print Assumptions C13_rfinder.
+Print Assumptions C13_iter_complete.
+Print Assumptions C13_riter_complete.
+Print Assumptions C13_iter_any.
+Print Assumptions C13_riter_any.
+Print Assumptions C13_hit_aware.
 Print Assumptions C13_twoway.
 Print Assumptions C13_twoway_rev.
 Print Assumptions C13_preprocessing.
